@@ -68,9 +68,9 @@ def r01_1(ck):
                     'Defer objects are constructed only by _process_update',
                     'a Defer is constructed outside _process_update: an '
                     'update could be started without being scheduled', c)
-            if name == 'send_command' and c.args and isinstance(
-                    c.args[0], ast.Constant) and \
-                    c.args[0].value == 'next_update':
+            cmd = A.arg_of(c, 0, 'command') if name == 'send_command' \
+                else None
+            if isinstance(cmd, ast.Constant) and cmd.value == 'next_update':
                 ck.require(
                     f.qual == inv.qual, 'R01.1', f, c,
                     "send_command('next_update') only in _invoke_process",
@@ -576,7 +576,9 @@ def r01_4(ck):
                'Defer.get does not return the fetched update')
     if rets and res:
         r = rets[0]
-        call = r.value if isinstance(r.value, ast.Call) else None
+        from ..dataflow import expand
+        rv = expand(dg.node, r.value, r)
+        call = rv if isinstance(rv, ast.Call) else None
         ok = call is not None and A.unparse(call.func) == 'self.f' and \
             len(call.args) == 2 and A.unparse(call.args[1]) == 'self.args' \
             and A.contains(call.args[0], res[0])
